@@ -58,6 +58,7 @@ type World struct {
 	firedAsserts   map[*AssertSpec]bool
 	pendingExtra   []string
 	loopKeysExtra  []string
+	loopCallSites  []loopCallSite // calls by contract inside the loop being framed (targets resolved at the loop head)
 	curBlock       *ssa.BasicBlock
 	muted          int
 	forcedNext     map[*ssa.Next]*Val
